@@ -40,6 +40,8 @@ def h_symqsp(c):
     out["u00"] = enc(numpy.array([u[0, 0] for u in U], dtype=complex))
     out["re"] = enc(numpy.asarray(p.gen_response_re(samples), dtype=float))
     out["im"] = enc(numpy.asarray(p.gen_response_im(samples), dtype=float))
+    # the 3x3 recurrences at every sample point inside [-1, 1]
+    out["comp"] = [enc(numpy.asarray(p.gen_poly_jacobian_components(a), dtype=float).reshape(-1)) if abs(a) <= 1 else None for a in samples]
     f, df = p.gen_jacobian()
     out["f"] = enc(numpy.asarray(f, dtype=float))
     out["df"] = enc(numpy.asarray(df, dtype=float))
